@@ -431,7 +431,12 @@ class SecopClient(ProxyClient):
             if not parked:
                 line = encode_msg_frame(*request)
                 self.log.debug('TX: %r', line)
-                self.io.send(line)
+                try:
+                    self.io.send(line)
+                except OSError:
+                    # the connection is already shut down (by disconnect or by
+                    # the peer): the waiting caller is released by disconnect
+                    break
         self._txthread = None
         self.disconnect(False)
 
